@@ -98,12 +98,21 @@ def run(chk, prog):
             ren_ok = False
     # Parseval clause: the equality with the wake's energy loss is stated for the unfiltered spectrum, so without a cut-off
     # (cutoff_frequency <= 0) the factor in front of Re Z |F|^2 is _formfactorrenorm itself, not a limit of the high-pass formula
+    named_conds = {}
+    for st_ in A.walk(fn["body"]):
+        if st_.get("k") == "DeclStmt":
+            for d_ in st_.get("decls", []):
+                if d_.get("k") == "VarDecl" and d_.get("is_const") and (d_.get("ctype") or "").replace("const ", "").strip() == "bool" and isinstance(d_.get("init"), dict):
+                    named_conds[d_["name"]] = A.show(A.strip(d_["init"])).replace(" ", "").strip("()")
+
     def no_cutoff(e):
         if e is None:
             return None
         for t in list(e.atoms(sp.Function)):
-            if str(t.func) == "ite" and "cutoff_frequency" in str(t.args[0]):
-                c_ = str(t.args[0]).replace(" ", "").strip("()")
+            ct_ = str(t.args[0]).replace(" ", "").strip("()") if str(t.func) == "ite" else ""
+            ct_ = named_conds.get(ct_, ct_)
+            if str(t.func) == "ite" and "cutoff_frequency" in ct_:
+                c_ = ct_
                 if c_ in ("cutoff_frequency>0", "0<cutoff_frequency", "cutoff_frequency>0.0"):
                     e = e.subs(t, t.args[2])
                 elif c_ in ("cutoff_frequency<=0", "0>=cutoff_frequency", "!(cutoff_frequency>0)"):
